@@ -20,6 +20,8 @@ Every external effect is an input: the exit of each child process (`Exit`, one p
 the answers of the CA to the challenge POST and to the authorization poll (`Bool`s), the daemon's own
 environment (`proc`).  Names, keys and values are `List Char`.
 -/
+import AcmedVerif.Gen.Consts
+
 namespace AcmedVerif.Hooks
 
 /-! ## Hook types, hooks, groups -/
@@ -80,6 +82,8 @@ structure Group where
 inductive Err where
   | notFound (n : Name)      -- "{name}: hook not found"
   | cycle (n : Name)         -- "{name}: hook group contains itself"
+  | tooDeep (n : Name)       -- "{name}: hook groups are nested too deeply"      config.rs:134
+  | tooMany (n : Name)       -- "{name}: hook groups contain too many members"   config.rs:108
   | fuel                     -- model artefact; never returned with `fuel ≥ #groups + 1`
   deriving Repr, DecidableEq, Inhabited
 
@@ -104,7 +108,9 @@ def mapCat (f : Name → Except Err (List Hook)) : List Name → Except Err (Lis
       | .error e => .error e
       | .ok rest => .ok (hs ++ rest)
 
-/-- `get_hook_rec(name, parents)`, `config.rs:99-133`.  `path` = `parents` (only membership is used).
+/-- What a name DENOTES: `get_hook_rec` without its two limits (`config.rs:99-133` as it was before
+537f12e; the code is `expandB` below, which returns the same hooks whenever it accepts:
+`Lemmas/Hooks.lean` `expandB_ok_expand`).  `path` = `parents` (only membership is used).
 Hooks are looked up before groups; a group is expanded in place, depth first, declaration order;
 a group that is on its own expansion path is refused. -/
 def expand (hooks : List Hook) (groups : List Group) : Nat → List Name → Name → Except Err (List Hook)
@@ -122,14 +128,66 @@ def expand (hooks : List Hook) (groups : List Group) : Nat → List Name → Nam
 /-- Enough fuel for every configuration: the expansion path holds distinct group names. -/
 def enoughFuel (groups : List Group) : Nat := groups.length + 1
 
+/-- `crate::MAX_HOOK_GROUP_DEPTH`, `crate::MAX_HOOK_GROUP_MEMBERS` (main.rs, regenerated into
+Gen/Consts.lean on every run). -/
+def maxDepth : Nat := Gen.MAX_HOOK_GROUP_DEPTH
+def maxMembers : Nat := Gen.MAX_HOOK_GROUP_MEMBERS
+
+/-- `for hook_name in grp.hooks { let mut h = self.get_hook_rec(hook_name, parents, budget)?;
+ret.append(&mut h); }` (`config.rs:138-141`): `mapCat` with the budget behind `&mut usize` handed from
+one member to the next. -/
+def mapCatB (f : Nat → Name → Except Err (List Hook × Nat)) :
+    List Name → Nat → Except Err (List Hook × Nat)
+  | [], b => .ok ([], b)
+  | n :: ns, b =>
+    match f b n with
+    | .error e => .error e
+    | .ok (hs, b') =>
+      match mapCatB f ns b' with
+      | .error e => .error e
+      | .ok (rest, b'') => .ok (hs ++ rest, b'')
+
+/-- `get_hook_rec(name, parents, budget)`, `config.rs:100-147` (the current code): `expand` with the two
+limits.  A call that finds the budget at 0 is refused, any other lowers it by one BEFORE looking the
+name up (every member visited counts); on entering a group, after the cycle test,
+`parents.len() >= MAX_HOOK_GROUP_DEPTH` is refused.  Returns the hooks and what is left of the
+budget. -/
+def expandB (hooks : List Hook) (groups : List Group) :
+    Nat → List Name → Nat → Name → Except Err (List Hook × Nat)
+  | 0, _, _, _ => .error .fuel
+  | fuel + 1, path, budget, n =>
+    match budget with
+    | 0 => .error (.tooMany n)
+    | budget + 1 =>
+      match findHook hooks n with
+      | some h => .ok ([h], budget)
+      | none =>
+        match findGroup groups n with
+        | none => .error (.notFound n)
+        | some g =>
+          if n ∈ path then .error (.cycle n)
+          else if path.length ≥ maxDepth then .error (.tooDeep n)
+          else mapCatB (expandB hooks groups fuel (n :: path)) g.hooks budget
+
+/-- Forget what is left of the budget. -/
+def dropBudget : Except Err (List Hook × Nat) → Except Err (List Hook)
+  | .ok (r, _) => .ok r
+  | .error e => .error e
+
+/-- `Config::get_hook` (`config.rs:95-98`) with explicit fuel: a fresh budget of
+MAX_HOOK_GROUP_MEMBERS for each name. -/
+def getHookFuel (hooks : List Hook) (groups : List Group) (fuel : Nat) (n : Name) :
+    Except Err (List Hook) :=
+  dropBudget (expandB hooks groups fuel [] maxMembers n)
+
 /-- `Config::get_hook`. -/
 def getHook (hooks : List Hook) (groups : List Group) (n : Name) : Except Err (List Hook) :=
-  expand hooks groups (enoughFuel groups) [] n
+  getHookFuel hooks groups (enoughFuel groups) n
 
 /-- `Certificate::get_hooks` / `Account::get_hooks` with explicit fuel. -/
 def expandAllFuel (hooks : List Hook) (groups : List Group) (fuel : Nat) (names : List Name) :
     Except Err (List Hook) :=
-  mapCat (expand hooks groups fuel []) names
+  mapCat (getHookFuel hooks groups fuel) names
 
 /-- `Certificate::get_hooks` / `Account::get_hooks` (an account without `hooks` = `[]`). -/
 def expandAll (hooks : List Hook) (groups : List Group) (names : List Name) :
